@@ -1,4 +1,5 @@
-(* C11 model runner.  Input lines "ID<TAB>V <value>" or "ID<TAB>Q <cps> [<hex>]" (grammar in
+(* C11 model runner.  Input lines "ID<TAB>V <value>", "ID<TAB>W <k> <i> <seed> <value>*k" (the i-th value
+   of an interleaved history) or "ID<TAB>Q <cps> [<hex>]" (grammar in
    harness/cmd/c11/value.go); output "ID<TAB>MODEL<TAB>SPEC":
      V: MODEL json=<hex of to_json v>;parse=<tree read by json_parse | ERR>;unjson=<of_tree of it>
         SPEC  tree=<tree_of v, numbers by value>;back=<norm v>;flags=<wf,data,reserved,strkeys,dupnames>
@@ -134,6 +135,20 @@ let rec dup_names (v : value) : bool =
     dup names || List.exists (fun (_, x) -> dup_names x) fs
   | _ -> false
 
+let value_case (id : string) (v : value) : unit =
+  let js = to_json fmt v in
+  let parsed = json_parse js in
+  let pstr_s = (match parsed with Some t -> tree_string t | None -> "ERR") in
+  let un = show_outcome (unjson pf js) in
+  let flags = String.concat "," (List.filter (fun s -> s <> "") [
+      (if wf fmt v then "wf" else "");
+      (if data fmt v then "data" else "");
+      (if no_reserved_keys v then "" else "reserved");
+      (if sym_keys v then "" else "strkeys");
+      (if dup_names v then "dupnames" else "")]) in
+  Printf.printf "%s\tjson=%s;parse=%s;unjson=%s\ttree=%s;back=%s;flags=%s\n" id
+    (hex_of_bytes js) pstr_s un (tree_val_string (tree_of fmt v)) (show_outcome (Ok (norm v))) flags
+
 let () =
   iter_lines (fun line ->
     match split_tab line with
@@ -143,18 +158,15 @@ let () =
        | "V" :: rest ->
          ftab := [];
          let (v, _) = parse_value rest in
-         let js = to_json fmt v in
-         let parsed = json_parse js in
-         let pstr_s = (match parsed with Some t -> tree_string t | None -> "ERR") in
-         let un = show_outcome (unjson pf js) in
-         let flags = String.concat "," (List.filter (fun s -> s <> "") [
-             (if wf fmt v then "wf" else "");
-             (if data fmt v then "data" else "");
-             (if no_reserved_keys v then "" else "reserved");
-             (if sym_keys v then "" else "strkeys");
-             (if dup_names v then "dupnames" else "")]) in
-         Printf.printf "%s\tjson=%s;parse=%s;unjson=%s\ttree=%s;back=%s;flags=%s\n" id
-           (hex_of_bytes js) pstr_s un (tree_val_string (tree_of fmt v)) (show_outcome (Ok (norm v))) flags
+         value_case id v
+       | "W" :: k :: i :: _seed :: rest ->
+         (* an interleaved history of k values; this line observes the i-th (0-based): encodings
+            are values, so the model and the specification of the line are those of that value alone *)
+         ftab := [];
+         let rec go n toks acc = if n = 0 then List.rev acc else
+             let (v, r) = parse_value toks in go (n - 1) r (v :: acc) in
+         let vs = go (int_of_string k) rest [] in
+         value_case id (List.nth vs (int_of_string i))
        | "Q" :: rest ->
          let s = cps_of_string (match rest with c :: _ -> c | [] -> "") in
          let q = json_quote s in
